@@ -46,7 +46,7 @@ def ref_ok(member) -> bool:
 
 def select_members(prop: str, tier: str, seed: int):
     if tier == "quick":
-        trivs = ["none", "ws2", "cmn", "both"]
+        trivs = ["none", "ws2", "cmn", "both", "bothn1"]
     else:
         trivs = list(family.TRIVIA)
     mem = family.family(trivs)
